@@ -855,9 +855,9 @@ impl<B: ScopedBitRead> UperReader<B> {
         f: F,
     ) -> Result<T, Error> {
         let write_position = self.bits.pos() + (length_bytes * BYTE_LEN);
-        // limit the visible length to the sub-slice for the call
+        // limit the visible length to the sub-slice for the call, never beyond the enclosing limit
         let write_original = self.bits.len();
-        self.bits.set_len(write_position);
+        self.bits.set_len(write_position.min(write_original));
         let result = f(self);
         // extend to original position
         let len = self.bits.set_len(write_original);
